@@ -90,4 +90,53 @@ example : ARINC_WF ⟨0, [⟨4110, true, false, 1, 200, [1, 2, 3, 4]⟩, ⟨0, f
   simp only [List.mem_cons, List.mem_nil_iff, or_false] at hw
   rcases hw with h | h <;> subst h <;> simp [Word_WF]
 
+/-! ### review additions (rev1-C04) -/
+
+/-- the packet layout with every word in its declarative form: `ARINC_pack_layout` is phrased with the
+    helper `wordBytes`; composing it with `ARINCWord_pack_layout` removes the helper from the statement -/
+theorem ARINC_pack_layout_spec (p : Packet) (h : ARINC_WF p) :
+    p.pack.2 = .ok (Spec.Ch11.arincPacket (p.arincwords.map fun w =>
+      Spec.Ch11.arincWord w.bus w.format_error w.parity_error w.bus_speed w.gaptime w.payload)) := by
+  have e : p.arincwords.map wordBytes = p.arincwords.map (fun w =>
+      Spec.Ch11.arincWord w.bus w.format_error w.parity_error w.bus_speed w.gaptime w.payload) := by
+    apply List.map_congr_left
+    intro w hw
+    have h1 := Word_pack_eq w (h.1 w hw).1
+    have h2 := ARINCWord_pack_layout w (h.1 w hw).1
+    rw [h1] at h2
+    exact Except.ok.inj h2
+  rw [← e]
+  exact (ARINC_pack_layout p h).1
+
+/-- the empty packet is inside `ARINC_WF` (the quantifier says 1..N; count 0 is legal for this format
+    and is accepted too): four bytes, count 0 -/
+example : ARINC_WF Packet.fresh ∧ Packet.fresh.pack.2 = .ok [0, 0, 0, 0] ∧
+    Packet.unpack ⟨7, [Word.fresh]⟩ [0, 0, 0, 0] = (Packet.fresh, .ok ()) := by
+  refine ⟨⟨by simp [Packet.fresh], by simp [Packet.fresh]⟩, rfl, rfl⟩
+
+/-- joint witness for the hypotheses of `ARINC_append_accepted` (`hw` and `hl` together), with every
+    status bit, the widest gap time and bus number: the theorem instantiated -/
+example : ∃ b, (([⟨4110, true, false, 1, 200, [1, 2, 3, 4]⟩, ⟨0xFFFFF, false, true, 0, 255, [9, 8, 7, 6]⟩] : List Word).foldl
+      Packet.append Packet.fresh).pack.2 = .ok b ∧
+    Packet.unpack ⟨5, [Word.fresh]⟩ b =
+      ({ msgcount := 2, arincwords := [⟨4110, true, false, 1, 200, [1, 2, 3, 4]⟩, ⟨0xFFFFF, false, true, 0, 255, [9, 8, 7, 6]⟩] },
+       .ok ()) :=
+  ARINC_append_accepted _ _
+    (by
+      intro w hw
+      simp only [List.mem_cons, List.mem_nil_iff, or_false] at hw
+      rcases hw with h | h <;> subst h <;> simp [Word_WF])
+    (by simp)
+
+/-- joint witness for `ARINCWord_roundtrip` / `ARINCWord_pack_layout`: all three header fields at their maxima -/
+example : Word_WF ⟨0xFFFFF, true, true, 1, 255, [0xDE, 0xAD, 0xBE, 0xEF]⟩ := by simp [Word_WF]
+
+/-- outside `Word_WF`: `pack` does not mask the gap time — 2^20 lands in the reserved bit 20 and is lost
+    on decode (gap 0), 2^21 is ADDED into the bus-speed bit and encodes exactly like speed 1, gap 0;
+    this is why the hypothesis `gaptime < 2^20` is needed -/
+example : ∃ b, (⟨0x100000, false, false, 0, 0, [1, 2, 3, 4]⟩ : Word).pack = .ok b ∧
+    (Word.unpack Word.fresh b).1 = ⟨0, false, false, 0, 0, [1, 2, 3, 4]⟩ ∧
+    (⟨0x200000, false, false, 0, 0, [1, 2, 3, 4]⟩ : Word).pack = (⟨0, false, false, 1, 0, [1, 2, 3, 4]⟩ : Word).pack := by
+  refine ⟨_, rfl, by decide, rfl⟩
+
 end Acra.Props.C04
